@@ -24,6 +24,7 @@ type Flags struct {
 	TrySeparate      bool // try / catch / finally blocks are three sibling scopes (else one shared)
 	FinallyOnAbrupt  bool // finally also runs when try body or catch block is left abruptly (return/break/continue/error)
 	DeferErrLast     bool // of several failing deferred calls the last one run supplies the error (else the first)
+	ForInScalarSkips bool // a for-in over nil or a boolean makes no round (else it is a run error)
 	StrayControlNoop bool // a break/continue with no enclosing loop inside the function just ends the call (else it is a run error of the call); either way it never reaches the caller's loop
 
 	// finding flags — deviations from the statements, listed in known_findings.json
@@ -488,6 +489,12 @@ func (in *Interp) stmt(s gen.Stmt, sc *Scope, fr *frame) result {
 				if r.c == cReturn || r.c == cError {
 					unspec("abrupt exit from map iteration")
 				}
+			}
+		case nil, bool:
+			// nothing to visit and no way to read nil / a boolean as a collection: the statement is
+			// either an error or a loop without rounds (the statements do not say which)
+			if !in.fl.ForInScalarSkips {
+				return result{c: cError, err: rtErr("for-in over a non-collection")}
 			}
 		default:
 			unspec("for-in over %T", xv)
